@@ -20,8 +20,16 @@ type objectClass struct {
 }
 
 func objectEnumerate(obj *object, all bool, each func(string) bool) {
-	for _, name := range obj.propertyOrder {
-		if all || obj.property[name].enumerable() {
+	// each may delete properties, which shifts propertyOrder in place:
+	// walk a snapshot and skip the names that are gone.
+	names := make([]string, len(obj.propertyOrder))
+	copy(names, obj.propertyOrder)
+	for _, name := range names {
+		prop, exists := obj.property[name]
+		if !exists {
+			continue
+		}
+		if all || prop.enumerable() {
 			if !each(name) {
 				return
 			}
